@@ -24,7 +24,10 @@ def opBootRequest : UInt8 := 1
 def opBootReply : UInt8 := 2
 def hwEthernet : Nat := 1
 def mtDiscover : UInt8 := 1
+def mtOffer : UInt8 := 2
 def mtRequest : UInt8 := 3
+def mtAck : UInt8 := 5
+def mtNak : UInt8 := 6
 def mtRelease : UInt8 := 7
 def mtInform : UInt8 := 8
 def optSubnetMask : UInt8 := 1
@@ -36,6 +39,7 @@ def optLeaseTime : UInt8 := 51
 def optMessageType : UInt8 := 53
 def optServerID : UInt8 := 54
 def optParamList : UInt8 := 55
+def optMaxMsgSize : UInt8 := 57
 def optClientID : UInt8 := 61
 def optTFTPServerName : UInt8 := 66
 def optBootfileName : UInt8 := 67
@@ -83,6 +87,7 @@ inductive OptVal where
   | requestedIP (ip : IP)               -- OptRequestedIPAddress(ip)
   | serverID (ip : IP)                  -- OptServerIdentifier(ip)
   | paramList (cs : List UInt8)         -- OptParameterRequestList(cs...)
+  | maxMessageSize (n : Nat)            -- OptMaxMessageSize(n) (uint16)
 
 namespace OptVal
 def code : OptVal → UInt8
@@ -91,6 +96,7 @@ def code : OptVal → UInt8
   | requestedIP _ => optRequestedIP
   | serverID _ => optServerID
   | paramList _ => optParamList
+  | maxMessageSize _ => optMaxMsgSize
 /-- `opt.Value.ToBytes()` -/
 def bytes : OptVal → Bytes
   | generic _ v => v
@@ -98,6 +104,7 @@ def bytes : OptVal → Bytes
   | requestedIP ip => ipTo4Bytes ip
   | serverID ip => ipTo4Bytes ip
   | paramList cs => cs
+  | maxMessageSize n => be16 n          -- `Uint16.ToBytes`: big-endian uint16
 end OptVal
 
 /-- One constructor per exported `With*` function. -/
